@@ -93,3 +93,50 @@ func kitTrunc(s string) string {
 	}
 	return s
 }
+
+// TestKnownC02 probes the known finding large-value-dictionary: 60 batches of
+// 1,000 log records whose bodies are distinct 2 KiB strings, default producer,
+// default consumer. The body dictionary (16-bit index, up to 65,535 entries)
+// keeps growing in the consumer's IPC reader; appending a delta needs the old
+// and the new copy, and the default 70 MiB memory limit is reached long before
+// the dictionary overflows to a plain column.
+func TestKnownC02(t *testing.T) {
+	p, cons, closeAll := newPair(Options{})
+	defer closeAll()
+	n := 0
+	for b := 0; b < 60; b++ {
+		ld := plog.NewLogs()
+		sl := ld.ResourceLogs().AppendEmpty().ScopeLogs().AppendEmpty()
+		for i := 0; i < 1000; i++ {
+			n++
+			sl.LogRecords().AppendEmpty().Body().SetStr(fmt.Sprintf("%08d", n) + strings.Repeat("b", 2040))
+		}
+		bar, err, pn := Encode(p, Input{Signal: Logs, Logs: ld})
+		if err != nil || pn != nil {
+			fmt.Printf("KNOWN-NOVERDICT key=large-value-dictionary producer: %v %v\n", err, pn)
+			return
+		}
+		var derr error
+		items := 0
+		dpn := catch(func() {
+			outs, err := cons.LogsFrom(bar)
+			derr = err
+			for _, o := range outs {
+				items += o.LogRecordCount()
+			}
+		})
+		if dpn != nil {
+			fmt.Printf("KNOWN-NOVERDICT key=large-value-dictionary consumer panicked: %s\n", dpn)
+			return
+		}
+		if derr != nil {
+			fmt.Printf("KNOWN-REPRODUCED key=large-value-dictionary batch %d of 60 refused by a default consumer: %s\n", b, kitTrunc(derr.Error()))
+			return
+		}
+		if items != 1000 {
+			fmt.Printf("KNOWN-NOVERDICT key=large-value-dictionary batch %d: %d items\n", b, items)
+			return
+		}
+	}
+	fmt.Printf("KNOWN-GONE key=large-value-dictionary (all 60 batches decoded)\n")
+}
